@@ -1477,9 +1477,8 @@ pub unsafe extern "C" fn SFileAddFileEx(
     if (flags & MPQ_FILE_FIX_KEY) != 0 {
         options = options.fix_key();
     }
-    if (flags & MPQ_FILE_REPLACEEXISTING) != 0 {
-        options = options.replace_existing(true);
-    }
+    // Without MPQ_FILE_REPLACEEXISTING an existing name is refused (ERROR_ALREADY_EXISTS)
+    options = options.replace_existing((flags & MPQ_FILE_REPLACEEXISTING) != 0);
 
     // Add the file
     match mutable_archive.add_file(filename_str, archived_name_str, options) {
